@@ -27,6 +27,7 @@
 (*   "tie_first"   Resolve assigns sortedDistances[0] even when the two best distances tie        *)
 (*   "circle_noN"  hamming_circle without the N substitution (self-replacement keeps the letter)   *)
 (*   "idx_line"    ParseLine stores the line number instead of the index column                    *)
+(*   "tie_same_index" Resolve treats a tie of two entries with the SAME cell index as resolvable       *)
 (*   "falsy_index" Lookup tests `barcodes.get(q)` for truth: a member with cell index 0 is missed     *)
 (*   "getitem_noexpand"  __getitem__ loads the pending file but skips the Hamming expansion             *)
 (*   "eager_expand_gated"  __init__ expands eagerly loaded aliases only when lazyLoad is None: with a     *)
@@ -58,7 +59,9 @@ AllStrings == [1 .. L -> 1 .. A]
 \* a file is [fmt, bcs (injective sequence of barcodes)]; the index written for line i is IdxOf(fmt, fno, i)
 \* one-column files: the 1-based line number; two-column files: a 0-BASED index column, so that the cell index 0
 \* (a falsy value in Python) occurs in both column orders and never equals the line number
-IdxOf(fmt, fno, i) == IF fmt = "bc" THEN i ELSE i - 1
+\* barcode-first files repeat ONE index value (0) on every line: several barcodes of one cell - a string equally close to two of
+\* them is still a tie; index-first files count 0, 1, ...
+IdxOf(fmt, fno, i) == IF fmt = "bc" THEN i ELSE IF fmt = "bc_idx" THEN 0 ELSE i - 1
 \* tokens of line i: <<"b", barcode>> looks like a barcode (all letters in ATCGNX), <<"i", n>> does not
 LineTokens(f, fno, i) ==
     CASE f.fmt = "bc"     -> << <<"b", f.bcs[i]>> >>
@@ -164,7 +167,11 @@ Resolve ==
     /\ LET hs == { h \in AllStrings : space[h] # {} }
            dmin(h) == MinOf({ e[1] : e \in space[h] })
            best(h) == { e \in space[h] : e[1] = dmin(h) }
-           tie(h) == Cardinality(space[h]) > 1 /\ Cardinality(best(h)) > 1
+           os(h) == { e[2] : e \in best(h) }
+           first(S) == CHOOSE o \in S : \A p \in S : p = o \/ LexLess(o, p)
+           tie(h) == /\ Cardinality(space[h]) > 1 /\ Cardinality(best(h)) > 1
+                     /\ (Variant = "tie_same_index" /\ Cardinality(os(h)) > 1      \* (deviation) only a collision if the cells differ
+                           => wl[first(os(h))] # wl[first(os(h) \ {first(os(h))})])
            kept == { h \in hs : Variant = "tie_first" \/ ~tie(h) }
            origin(h) == CHOOSE o \in { e[2] : e \in best(h) } : \A p \in { e[2] : e \in best(h) } : p = o \/ LexLess(o, p)
            new == [ h \in { x \in kept : dmin(x) > 0 } |-> << wl[origin(h)], origin(h), dmin(h) >> ]
